@@ -19,7 +19,7 @@ def make_compare_pair(work, rng, family, nbands=1):
     family 'same': same grid (integer offset);  'avg2' / 'avg4': source 2x / 4x finer, aligned, masks on whole reference pixels."""
     ratio = dict(same=1, avg2=2, avg4=4)[family]
     res = rng.choice([1.0, 0.5, 2.0])
-    x0, y0 = rng.choice([(0.0, 0.0), (4.0, 100.0), (-64.0, 32.0)])
+    x0, y0 = rng.choice([(16.0, 48.0), (4.0, 100.0), (-64.0, 32.0)])
     ph, pw = (rng.randint(6, 24), rng.randint(6, 24)) if ratio == 1 else (rng.randint(4, 12), rng.randint(4, 12))
     off = (rng.randint(0, 4), rng.randint(0, 4))
     rshape = (ph + off[0] + rng.randint(0, 3), pw + off[1] + rng.randint(0, 3))
